@@ -192,7 +192,45 @@ def gen_C06(rng, tier):
         e = p.bind('eye T %d' % rng.randint(1, 6)); p.add('obs %s' % e)
         p.tag('construct')
         progs.append(p)
+    for i in range(40 if tier == 'quick' else 600):
+        progs.append(index_reuse(rng, 'c06_ir%d' % i))
     return progs
+
+def index_reuse(rng, name):
+    """the SAME caller-owned index (a `[]tensor.Range` variable with one range per dimension, some of them the whole-dimension
+    range {0,0}) used for tensors whose sizes differ along those dimensions, and for Patch followed by Slice: the library may
+    read the caller's slice but must leave it as it was"""
+    p = Prog(name)
+    r = rng.randint(2, 3)
+    whole = [rng.random() < 0.5 for _ in range(r)]
+    if not any(whole): whole[rng.randrange(r)] = True
+    sa = [rng.randint(2, 4) for _ in range(r)]
+    sb = [d + rng.randint(1, 2) if w else d for d, w in zip(sa, whole)]
+    idx = []
+    for d, w in zip(sa, whole):
+        if w: idx.append((0, 0))
+        else:
+            a = rng.randint(0, d - 1); idx.append((a, rng.randint(a + 1, d)))
+    R = p.bind('ranges %s' % ranges(idx), 'R')
+    ta = p.tensor(sa, distinct_vals(rng, prod(sa), 'int'))
+    tb = p.tensor(sb, distinct_vals(rng, prod(sb), 'frac'))
+    order = [ta, tb] if rng.random() < 0.5 else [tb, ta]
+    for t in order + [order[0]]:
+        s_ = p.bind('slice %s $%s' % (t, R)); p.add('obs %s' % s_)
+    # Patch with the shared index, then Slice with it: the block comes back
+    blk = [(b - a) if (a, b) != (0, 0) else d for (a, b), d in zip(idx, sa)]
+    small = [max(1, d - 1) if (a, b) == (0, 0) else d for (a, b), d in zip(idx, blk)]
+    for t, shp in ((tb, sb), (ta, sa)):
+        src_shape = [min(x, y) for x, y in zip(small, shp)]
+        src = p.tensor(src_shape, [50.0 + v for v in range(prod(src_shape))])
+        q = p.bind('patch %s $%s %s' % (t, R, src)); p.add('obs %s' % q)
+        s2 = p.bind('slice %s $%s' % (q, R)); p.add('obs %s' % s2)
+    # the same for a caller-owned dims list
+    D = p.bind('ints %s' % ints([prod(sa)]), 'D')
+    for t in (ta, p.tensor(sa, distinct_vals(rng, prod(sa), 'int'))):
+        f = p.bind('reshape %s $%s' % (t, D)); p.add('obs %s' % f)
+    p.tag('caller-index-reused')
+    return p
 
 def gen_C03(rng, tier):
     progs = []
@@ -261,6 +299,15 @@ def gen_C03(rng, tier):
     for i in range(bc):
         p = Prog('c03_b%d' % i)
         target = rand_shape(rng, 6 if i % 11 == 0 else 4, 2 if i % 11 == 0 else 3, 0)
+        if i % 13 == 7:
+            # high rank (9 … 12 dimensions, most of size 1, two or three of size 2 / 3 anywhere — also at positions 8 and beyond)
+            r = rng.randint(9, 12)
+            target = [1] * r
+            for j in rng.sample(range(r), rng.randint(2, 3)):
+                target[j] = rng.randint(2, 3)
+            if rng.random() < 0.7:
+                target[rng.randint(8, r - 1)] = rng.randint(2, 3)
+            p.tag('high-rank')
         sa = broadcast_sources(rng, target)
         sb = broadcast_sources(rng, target)
         # make sure the pair really broadcasts to something (it does: both derive from target)
